@@ -68,7 +68,7 @@ pub fn template(msg: &str) -> String {
 impl Monitor for C05 {
     fn case(&mut self, idx: u64, rng: &mut Rng, rep: &mut Report) {
         let pk = drive::ALL_PK[(idx % 7) as usize];
-        let cfg = drive::random_cfg(rng, pk);
+        let cfg = drive::random_cfg_skip(rng, pk);
         let size = match rng.below(300) {
             0 => self.max_size,
             1..=10 => 200.min(self.max_size),
